@@ -8,4 +8,5 @@ mkdir -p target evidence
 (cd harness && cargo build --release 2>&1 | tail -n 3)
 (cd /repo && RUSTFLAGS="--cfg dandavison_delta_verif -C overflow-checks=on" cargo build --release --offline --target-dir "$ROOT/target/bin" 2>&1 | tail -n 3)
 cp harness/target/release/stubtool target/stubtool
+mkdir -p target/shim && cc -shared -fPIC -O1 -o target/shim/writefail.so shim/writefail.c -ldl
 echo "setup done"
